@@ -17,6 +17,8 @@ pub struct Cx {
     pub viols: Vec<Viol>,
     pub nontrivial: bool,
     pub validated: bool,
+    /// implementation executions performed by probes / matrices / products on clones
+    pub probe_execs: u64,
 }
 #[derive(Clone, Debug)]
 pub struct Viol {
@@ -40,6 +42,9 @@ impl Cx {
     /// the outcome was compared against an independent recomputation / reference
     pub fn validated(&mut self) {
         self.validated = true;
+    }
+    pub fn probe(&mut self, n: u64) {
+        self.probe_execs += n;
     }
     pub fn viol(&mut self, oracle: &str, sig: impl Into<String>, detail: impl Into<String>) {
         self.viols.push(Viol { oracle: oracle.into(), sig: sig.into(), detail: detail.into() });
@@ -82,6 +87,7 @@ pub struct Report {
     pub transitions: u64,
     pub nontrivial: u64,
     pub validated: u64,
+    pub probe_execs: u64,
     pub depth_completed: usize,
     pub depth_target: usize,
     pub exhaustive: bool,
@@ -109,12 +115,13 @@ struct Acc<S: Scenario> {
     nontrivial: u64,
     validated: u64,
     new_states: u64,
+    probe_execs: u64,
     viols: Vec<(Viol, Fp, u32, bool)>, // (viol, pre fp, action idx, is_state_viol)
     xor: [u8; 16],
 }
 impl<S: Scenario> Acc<S> {
     fn new() -> Self {
-        Acc { next: vec![], counters: BTreeMap::new(), transitions: 0, nontrivial: 0, validated: 0, new_states: 0, viols: vec![], xor: [0; 16] }
+        Acc { next: vec![], counters: BTreeMap::new(), transitions: 0, nontrivial: 0, validated: 0, new_states: 0, probe_execs: 0, viols: vec![], xor: [0; 16] }
     }
     fn merge(mut self, mut o: Self) -> Self {
         self.next.append(&mut o.next);
@@ -125,6 +132,7 @@ impl<S: Scenario> Acc<S> {
         self.nontrivial += o.nontrivial;
         self.validated += o.validated;
         self.new_states += o.new_states;
+        self.probe_execs += o.probe_execs;
         self.viols.append(&mut o.viols);
         for i in 0..16 {
             self.xor[i] ^= o.xor[i];
@@ -165,6 +173,7 @@ pub fn explore<S: Scenario>(sc: &S, lim: &Limits, seed_perm: u64) -> Report {
     let mut digest = [0u8; 16];
     let mut states = 0u64;
     let mut alphabet_sample = vec![];
+    let seed_probe_execs;
     {
         let mut cx = Cx::default();
         for (i, (_name, c, g)) in seeds.iter().enumerate() {
@@ -193,10 +202,12 @@ pub fn explore<S: Scenario>(sc: &S, lim: &Limits, seed_perm: u64) -> Report {
         for (k, v) in cx.counters {
             *counters.entry(k).or_insert(0) += v;
         }
+        seed_probe_execs = cx.probe_execs;
     }
     let mut transitions = 0u64;
     let mut nontrivial = 0u64;
     let mut validated = 0u64;
+    let mut probe_execs = seed_probe_execs;
     let mut layers = vec![(0usize, states, 0u64)];
     let mut depth_completed = 0usize;
     let mut cap_hit = None;
@@ -286,6 +297,7 @@ pub fn explore<S: Scenario>(sc: &S, lim: &Limits, seed_perm: u64) -> Report {
                     if cx.validated {
                         acc.validated += 1;
                     }
+                    acc.probe_execs += cx.probe_execs;
                     for (k, v) in cx.counters {
                         *acc.counters.entry(k).or_insert(0) += v;
                     }
@@ -299,6 +311,7 @@ pub fn explore<S: Scenario>(sc: &S, lim: &Limits, seed_perm: u64) -> Report {
         transitions += acc.transitions;
         nontrivial += acc.nontrivial;
         validated += acc.validated;
+        probe_execs += acc.probe_execs;
         states += acc.new_states;
         for k in 0..16 {
             digest[k] ^= acc.xor[k];
@@ -392,6 +405,7 @@ pub fn explore<S: Scenario>(sc: &S, lim: &Limits, seed_perm: u64) -> Report {
         transitions,
         nontrivial,
         validated,
+        probe_execs,
         depth_completed,
         depth_target: lim.max_depth,
         exhaustive,
